@@ -38,7 +38,9 @@ func runC03(c *Ctx) {
 		checkAggregateCommitVerifier(c, "C03.A", vac)
 		// … and credits each aggregation bit with the weight of the validator whose key sits at that
 		// position (an under-weight commit must not certify a block): the alignment rules of C06.R3
-		c.MinInstances("C03.A weights-follow-keys", c.borrowRule(runC06, "C06", "R3 keys-weights-aligned", "C03.A weights-follow-keys", nil), 1)
+		if na := c.borrowRule(runC06, "C06", "R3 keys-weights-aligned", "C03.A weights-follow-keys", nil); na < 1 {
+			c.Undecided("C03.A weights-follow-keys", "verifyAggregateCommit: keys/weights", "the alignment rule of C06.R3 could not be evaluated (anchor missing)")
+		}
 	}
 	// the generator key a signature is checked against and the validatorsHash a header must
 	// carry are the ones the application set last: skipping the update is licensed only by a
@@ -52,9 +54,12 @@ func runC03(c *Ctx) {
 	}), 1)
 	// a block is executed to the end only while every transaction's execution result is one the
 	// generator would have kept in a block (an INVALID result rejects the block) — the mirror rule of C15.R4
-	c.MinInstances("C03.X execution-verdict-checked", c.borrowRule(runC15, "C15", "R4 executer-mirror", "C03.X execution-verdict-checked", func(k string) bool {
+	if nx := c.borrowRule(runC15, "C15", "R4 executer-mirror", "C03.X execution-verdict-checked", func(k string) bool {
 		return k == "execution verdict" || k == "verification verdict"
-	}), 2)
+	}); nx < 2 {
+		// the mirror rule did not run (its anchors on the generator side are gone): not a verdict
+		c.Undecided("C03.X execution-verdict-checked", "execution verdict", "the generator/validator mirror of C15.R4 could not be evaluated (anchor missing)")
+	}
 	vf := factsOf(verify)
 
 	// ---- V: reject-edge table in verifyBlock
